@@ -351,8 +351,10 @@ func checkC02(w *World, r *Report) {
 		fmt.Sprintf("writers: %v", schedW))
 
 	// R6 / R8 from the typestate engine
-	r.Rule("C02.R8", "the worker loop re-reads the status before every batch (a stopped process gets no further batch)", 1)
+	r.Rule("C02.R8", "the worker loop re-reads the status before every batch (a stopped process gets no further batch); Inbox.Stop stores 'stopped'; the machine starts no goroutine", 4)
 	checkLoopStatus(w, r, "C02.R8")
+	checkInboxStopStores(w, r, "C02.R8")
+	checkNoGoroutinesInMachine(w, r, "C02.R8")
 	lta := w.findProcRoles().lta
 	if lta == nil {
 		r.Unknown("C02.R6", "lta", "typestate engine", "-", "actor.process not found")
